@@ -181,7 +181,7 @@ def file_level(rep, wd, tier, seed):
 
 def run(rep, wd, tier, seed):
     rep.assumptions += ['TLC 1.8 evaluates the TLA+ text correctly',
-                        '"promptly" is a 2 s watchdog per loads call (5 s per reader step, 8 s per tool run)']
+                        '"promptly" is a 4 s watchdog per loads call (5 s per reader step, 8 s per tool run); the largest valid message decodes in a few milliseconds']
     from . import c08mc
     c08mc.model_check(rep, wd, tier)
     message_level(rep, wd, tier, seed, owner, 'decode')
